@@ -154,16 +154,26 @@ template <class T> struct RegAlloc {
     template <class U> bool operator!=(const RegAlloc<U>&) const { return false; }
 };
 using SSet = tbb::detail::d2::concurrent_skip_list<tbb::detail::d2::set_traits<long, std::less<long>, ScriptGen, RegAlloc<long>, false>>;
+using SMSet = tbb::detail::d2::concurrent_skip_list<tbb::detail::d2::set_traits<long, std::less<long>, ScriptGen, RegAlloc<long>, true>>;
 
-static void skipgate_run(std::vector<i128>& c) {
+template <class SSet> static void skipgate_run(std::vector<i128>& c) {
     gate::reset();
-    g_node_hdr = sizeof(SSet::list_node_type);
+    g_node_hdr = sizeof(typename SSet::list_node_type);
     size_t p = 0; int nn = (int)c[p++];
-    std::vector<long> key(nn); std::vector<std::size_t> hgt(nn);
-    for (int i = 0; i < nn; ++i) { key[i] = (long)c[p++]; hgt[i] = (std::size_t)c[p++]; }
+    // auto mode (nn < 0): -nn nodes with ascending keys 0,1,2,.. and skip-list-like heights are pre-inserted first (ids 1..-nn), then E explicit nodes follow;
+    // the output is then a summary (no access log, no chains): the structure is checked here
+    int nauto = 0;
+    std::vector<long> key; std::vector<std::size_t> hgt;
+    if (nn < 0) {
+        nauto = -nn; key.push_back(0); hgt.push_back(32);
+        for (int i = 1; i <= nauto; ++i) { key.push_back(i - 1); hgt.push_back(std::min<std::size_t>(1 + (std::size_t)__builtin_ctz((unsigned)i), 12)); }
+        int E = (int)c[p++]; for (int i = 0; i < E; ++i) { key.push_back((long)c[p++]); hgt.push_back((std::size_t)c[p++]); }
+        nn = (int)key.size();
+    } else { key.resize(nn); hgt.resize(nn); for (int i = 0; i < nn; ++i) { key[i] = (long)c[p++]; hgt[i] = (std::size_t)c[p++]; } }
     SSet* s = new SSet();
     gate::reg_var(&s->my_max_height, 1);
     g_next_id = 0; s->create_head_if_necessary();
+    for (int id = 1; id <= nauto; ++id) { g_next_id = id; g_next_height = hgt[id]; s->insert(key[id]); }
     int np = (int)c[p++];
     for (int i = 0; i < np; ++i) { int id = (int)c[p++]; g_next_id = id; g_next_height = hgt[id]; s->insert(key[id]); }
     int nt = (int)c[p++];
@@ -186,7 +196,7 @@ static void skipgate_run(std::vector<i128>& c) {
     Out o;
     auto dec = [](unsigned long long v) -> long { return v == 0 ? 0 : (long)(v / 1000000) - 1; };
     for (auto& e : gate::trace) {
-        if (e.var < 1) continue;
+        if (e.var < 1 || nauto) continue;
         bool ptr = e.var >= 1000;
         o.put(e.tid); o.put(e.var); o.put(e.kind);
         o.put(e.kind == 2 ? 0 : (ptr ? dec(e.before) : (long)e.before)); o.put(ptr ? dec(e.after) : (long)e.after); o.put(e.ok);
@@ -199,6 +209,18 @@ static void skipgate_run(std::vector<i128>& c) {
     std::map<const void*, long> ids;
     for (auto& r : gate::regions) ids[(const void*)r.base] = (long)r.label - 1;
     auto* head = s->my_head_ptr.load();
+    if (nauto) {
+        std::vector<long> l0; std::map<const void*, size_t> pos; long sortbad = 0, levelbad = 0;
+        for (auto* n = head->next(0); n && l0.size() < 10000000; n = n->next(0)) { pos[n] = l0.size(); if (!l0.empty() && n->value() < l0.back()) sortbad++; l0.push_back(n->value()); }
+        for (std::size_t lev = 1; lev < 32; ++lev) {
+            long last = -1; size_t cnt = 0, want = 0; bool bad = false; long guard = 0;
+            for (auto* n = head->next(lev); n && guard < 10000000; n = n->next(lev), ++guard) { if (!pos.count(n) || (long)pos[n] <= last) { bad = true; break; } last = (long)pos[n]; cnt++; }
+            for (auto& r : gate::regions) if (r.label != 1 && (r.size - g_node_hdr) / 8 > lev && pos.count((const void*)r.base)) want++;
+            if (bad || cnt != want) levelbad++;
+        }
+        o.put(-10); o.put(levelbad); o.put(sortbad); o.put((long)l0.size());
+        o.flush(); return;
+    }
     for (std::size_t lev = 0; lev < 32; ++lev) {
         auto* n = head->next(lev);
         if (!n) continue;
@@ -222,7 +244,8 @@ int main(int argc, char** argv) {
         }
         return 0;
     }
-    if (mode == "skipgate") { while (read_case(c)) skipgate_run(c); return 0; }
+    if (mode == "skipgate") { while (read_case(c)) skipgate_run<SSet>(c); return 0; }
+    if (mode == "skipgatem") { while (read_case(c)) skipgate_run<SMSet>(c); return 0; }   // multiset: oracle only (the model covers unique keys)
     if (mode == "gate") {
         while (read_case(c)) {
             switch ((int)c[0]) { case 0: gate_run<USet>(c, false, true); break; case 1: gate_run<UMSet>(c, true, true); break; case 2: gate_run<OSet>(c, false, false); break; default: gate_run<OMSet>(c, true, false); }
